@@ -128,6 +128,7 @@ func TestVerifC06Edns(t *testing.T) {
 		if body.Unpack(raw) != nil || len(body.Question) != 1 || body.Response {
 			continue // the chain entry is only ever handed decodable single-question queries
 		}
+		vC06Facts(gq, body)
 		twin := func() int {
 			keep := sc.tab
 			sc.tab = vC06NewTab()
